@@ -143,6 +143,19 @@ class Recorder:
         if self.on():
             self.pending.setdefault(self.current(), []).append(o)
 
+    def atom(self):
+        """called by a probe before a primitive read/write of a counter or write of a node dictionary: when the calling thread
+        does not hold the store's lock the access is a step of its own - what the thread did so far is emitted, and the scheduler
+        may run other threads before the access (an unlocked `x += 1` is a load and a store with a switch in between)"""
+        if self.sched is None or not self.on():
+            return
+        tid = self.current()
+        lk = self.lock
+        if lk is not None and lk.held and lk.owner == tid:
+            return
+        self.flush(tid)
+        self.sched.yield_point(tid)
+
     def flush(self, tid):
         group = self.pending.get(tid)
         if group:
@@ -291,6 +304,7 @@ class ObsNodeDict(dict):
         return self
 
     def __setitem__(self, k, v):
+        self.rec.atom()
         new = not dict.__contains__(self, k)
         dict.__setitem__(self, k, v)
         if new:
@@ -299,11 +313,13 @@ class ObsNodeDict(dict):
             self.rec.obs("unk", "node %r replaced" % (k,))
 
     def __delitem__(self, k):
+        self.rec.atom()
         owner = space_of(dict.get(self, k, {}).get("GraphID"))
         dict.__delitem__(self, k)
         self.rec.obs("ND", self.space, k, owner, self)
 
     def clear(self):
+        self.rec.atom()
         dict.clear(self)
         self.rec.obs("NC", self.space)
 
@@ -386,6 +402,7 @@ class ObsGraphs(defaultdict):
         return defaultdict.__getitem__(self, k)
 
     def __setitem__(self, k, v):
+        self.rec.atom()
         sp = space_of(k)
         if isinstance(v, nx.Graph):
             ids = list(dict.keys(v._node))
@@ -397,6 +414,7 @@ class ObsGraphs(defaultdict):
             self.rec.obs("unk", "entry set to a %s" % type(v).__name__)
 
     def clear(self):
+        self.rec.atom()
         dict.clear(self)
         self.rec.obs("DC")
 
@@ -426,6 +444,7 @@ class ObsCtr(defaultdict):
         return self
 
     def __getitem__(self, k):
+        self.rec.atom()
         self.quiet = True
         try:
             v = defaultdict.__getitem__(self, k)       # (a missing key is filled in by the factory: not a write of the program)
@@ -437,6 +456,7 @@ class ObsCtr(defaultdict):
     def __setitem__(self, k, v):
         if self.quiet:
             return dict.__setitem__(self, k, v)
+        self.rec.atom()
         old = dict.get(self, k)
         if old is None:
             old = self.default_factory() if self.default_factory else None
@@ -471,11 +491,15 @@ class _Attr:
             if self.kind == "graphs":
                 rec.obs("T")
             elif self.kind == "ctr":
+                rec.atom()
+                v = obj.__dict__[self.name]
                 rec.obs("R", 0, v)
         return v
 
     def __set__(self, obj, v):
         rec = _REC
+        if rec is not None and self.kind == "ctr":
+            rec.atom()
         old = obj.__dict__.get(self.name)
         if rec is not None:
             if self.kind == "ctr":
@@ -648,7 +672,8 @@ def make_graph(g, k, missing=None, direct=False, salt=""):
 def run_op(imp, rec, op, uniq):
     """op = [kind, g, k]; returns ["ok", summary] | ["err", kind]"""
     kind, g, k = op
-    rec.set_ctx(g, k if kind in ("add_graph", "add_graph_bad", "add_graph_direct") else 1, uniq)
+    # (a graph id that is not one of the harness's strings has graph index 0, cf. space_of)
+    rec.set_ctx(0 if kind.endswith("_unh") else g, k if kind in ("add_graph", "add_graph_bad", "add_graph_direct") else 1, uniq)
     try:
         # what a client does: a freshly constructed importer per operation (singleton creation guard runs each time);
         # the shell resolves the current store at every call
@@ -656,7 +681,7 @@ def run_op(imp, rec, op, uniq):
         st = imp.storage
         if kind.endswith("_unh"):
             # a graph id that cannot be a dictionary key: the call may fail, the lock must come back
-            bad = [gid(g)]
+            bad = ["graph-unhashable"]         # (one id for all such calls: it is graph index 0 of the model, cf. space_of)
             if kind == "get_graph_unh":
                 st.get_graph(bad)
             elif kind == "extract_graph_unh":
